@@ -67,7 +67,8 @@ func buildSecurityCaller(xfccHeader string) (*security.Caller, error) {
 	for _, cc := range clientCerts {
 		ids = append(ids, cc.URI...)
 		ids = append(ids, cc.DNS...)
-		if cc.Subject != nil {
+		// A subject without a common name establishes no identity (and must not become the identity "").
+		if cc.Subject != nil && cc.Subject.CommonName != "" {
 			ids = append(ids, cc.Subject.CommonName)
 		}
 	}
